@@ -2,6 +2,7 @@ package expr
 
 import (
 	"fmt"
+	"strconv"
 
 	"goa.design/goa/v3/eval"
 )
@@ -444,17 +445,24 @@ func validateMessage(msgAtt, serviceAtt *AttributeExpr, e *GRPCEndpointExpr, req
 // "rpc:tag" set in the meta and the tag numbers are unique.
 func validateRPCTags(fields *Object, e *GRPCEndpointExpr) *eval.ValidationErrors {
 	verr := new(eval.ValidationErrors)
-	foundRPC := make(map[string]string)
+	foundRPC := make(map[uint64]string)
 	for _, nat := range *fields {
 		if IsUnion(nat.Attribute.Type) {
 			continue
 		}
-		if tag, ok := nat.Attribute.FieldTag(); !ok {
+		tag, ok := nat.Attribute.FieldTag()
+		if !ok {
 			verr.Add(e, "attribute %q does not have \"rpc:tag\" defined in the meta, use \"Field\" to define the attribute of a type used in a gRPC method", nat.Name)
-		} else if a, ok := foundRPC[tag]; ok {
+			continue
+		}
+		// protobuf field numbers are integers in 1..2^29-1, 19000-19999 is reserved
+		num, err := strconv.ParseUint(tag, 10, 64)
+		if err != nil || num < 1 || num > 536870911 || (num >= 19000 && num <= 19999) {
+			verr.Add(e, "field number %q in attribute %q is invalid, it must be an integer between 1 and 536870911 outside of the reserved range 19000-19999", tag, nat.Name)
+		} else if a, ok := foundRPC[num]; ok {
 			verr.Add(e, "field number %s in attribute %q already exists for attribute %q", tag, nat.Name, a)
 		} else {
-			foundRPC[tag] = nat.Name
+			foundRPC[num] = nat.Name
 		}
 	}
 	return verr
